@@ -149,11 +149,14 @@ class Methods:
                     r = self.binop(st, pyast.Add(), acc, it)
                     acc = r[0][1]
                 return [(st, acc)]
-            raise Unsupported("sum over symbolic sequence")
+            return self.ex.L.sum_call(st, fr, args[0])
         if name in ("min", "max"):
             items = args if len(args) > 1 else self.concrete_items(st, args[0])
             if items is not None and all(isinstance(i, int) for i in items):
                 return [(st, (min if name == "min" else max)(items))]
+            if items is not None and len(items) == 2 and all(self._num(st, i) is not None for i in items):
+                ta, tb = (ex.to_term(st, self._num(st, i), "int") for i in items)
+                return [(st, SV(z3.If(ta >= tb, ta, tb) if name == "max" else z3.If(ta <= tb, ta, tb), "int"))]
             raise Unsupported(name + " over symbolic values")
         if name == "functools.partial":
             return [(st, Partial(args[0], tuple(args[1:]), tuple(kwargs.items())))]
